@@ -15,7 +15,7 @@ TRUSTED = ["Python float quotient (jerk/2 - accel)/jerk classifies against 1.5 /
 ASSUMPTIONS = ["firmware-valid families: per-tick |rate| and |accel| <= 2^31-1 for ticks 1..T, 1 <= T < 2^32; limit families: |rate|, |accel| < 2^36, T <= 20000 (floats exact)"]
 
 def generate(rng, tier):
-    n = 2500 if tier == "quick" else 60000
+    n = 2500 if tier == "quick" else 150000
     cases = []
     for _ in range(n):
         T, rate, accel, jerk, fam = ebbgen.gen_t3(rng)
